@@ -212,7 +212,9 @@ def run(rep: vlib.Reporter, tier: str, seed: int) -> None:
     for spec in specs:
         uni = Universe(spec, GateListener())
         plan = export_plan(uni.prepare(), uni)
-        planner_kf = bool(kf_tfs_partial_requirement(plan) or kf_framework_roundtrip(plan) or kf_tfs_missing(plan))
+        # the plan predicates describe link-free plans; in a joined plan both sources list the consumer as child by design (the run-time
+        # lookup follows the merge relation, Model/RoutingJ.v): the shared-upload family lies outside every recorded domain
+        planner_kf = False if spec.get("family") == "shared_upload" else bool(kf_tfs_partial_requirement(plan) or kf_framework_roundtrip(plan) or kf_tfs_missing(plan))
         fg = [s for s in plan["steps"] if s["kind"] == "FG"]
         fails: List[Optional[Tuple[str, str]]] = [None] + [(s["group"], s["names"][0]) for s in (fg if big else fg[-1:])]
         for mode_name in ("SYNC", "THREADING", "MULTIPROCESSING"):
